@@ -296,6 +296,12 @@ def programs(level):
             out.append([("while", c_out, mx_out, [("while", "i!=n", 2, [LA[0]], None), LA[1]], "b")])
             out.append([("while", c_out, mx_out, [("for", 2, [LA[1]], False), LA[0]], None)])
             out.append([("for", mx_out, [("while", "x<y", 2, [LA[1]], None), LA[0]], False)])
+    # --- nesting 3 (a few programs; the complete family to nesting 2 is in the thorough tier)
+    out.append([("while", "i!=n", 2, [("while", "x<y", 2, [("if", [("b", [A[0]])], None), LA[1]], None), LA[0]], None)])
+    out.append([("for", 2, [("if", [("x<y", [("while", "i!=n", 2, [LA[0]], None)])], [A[1]]), LA[1]], False)])
+    out.append([("if", [("b", [("for", 2, [("if", [("x<y", [A[0]])], None)], False)])], [("while", "x<y", 2, [LA[1]], None)])])
+    out.append([("while", "x<y", 3, [("while", "i!=n", 2, [("while", "x<y", 2, [LA[1]], None)], None), LA[0]], "b")])
+    out.append([("if", [("x<y", [("if", [("b", [("if", [("x==1", [A[0]])], [A[1]])])], [A[2]])])], [A[3]])])
     # --- long loops (beyond any fixed number of iterations a cache / refresh / batching scheme might assume)
     for mx in (70,) if level == 0 else (70, 130):
         for a in (("assign", "w", "w+F"), ("assign", "x", "x+1"), ("assign", "l0", "l0+1"), ("assign", "k", "k+1")):
